@@ -204,4 +204,128 @@ example :
     (handleRequest { c with amLighthouse := false } {} [peer] { typ := typHostUpdateNotification, details := some d }).2.sent = [] := by
   decide
 
+
+/-! ### configuration reloads: the gates follow the configuration in force at the time of the message -/
+
+/-- every element of a run is one step of the node that was current at that time. -/
+theorem trace_is_steps (n : Node) (evs : List NEv) :
+    ∀ x ∈ runTrace n evs, x.2.2 = stepNode x.1 x.2.1 := by
+  induction evs generalizing n with
+  | nil => intro x hx; simp [runTrace] at hx
+  | cons e rest ih =>
+    intro x hx
+    simp only [runTrace, List.mem_cons] at hx
+    rcases hx with hx | hx
+    · subst hx; rfl
+    · exact ih _ x hx
+
+/-- Over any history with reloads: a query reply / punch notification whose sender is not a lighthouse
+*under the configuration in force when it arrives* changes nothing and triggers nothing. -/
+theorem history_accepts_only_from_lighthouses_in_force (n : Node) (evs : List NEv)
+    (b a : Node) (o : Outp) (f : List Addr) (m : Msg)
+    (hx : (b, NEv.ev (.msg f m), a, o) ∈ runTrace n evs)
+    (hn : fromLighthouse b.cfg f = false) (ht : m.typ = typHostQueryReply ∨ m.typ = typHostPunchNotification) :
+    a.lh = b.lh ∧ o.sent = [] ∧ o.punches = [] ∧ o.trigger = none := by
+  have hs := trace_is_steps n evs _ hx
+  simp only [stepNode, Prod.mk.injEq] at hs
+  obtain ⟨ha, ho⟩ := hs
+  subst ha; subst ho
+  exact accepts_only_from_lighthouses b.cfg b.lh f m hn ht
+
+/-- … and whatever the history, something is sent / the cache changes on a query or host update only if the
+node is a lighthouse under the configuration in force. -/
+theorem history_nonlh_ignores_updates_and_queries (n : Node) (evs : List NEv)
+    (b a : Node) (o : Outp) (f : List Addr) (m : Msg)
+    (hx : (b, NEv.ev (.msg f m), a, o) ∈ runTrace n evs)
+    (hn : b.cfg.amLighthouse = false) (ht : m.typ = typHostQuery ∨ m.typ = typHostUpdateNotification) :
+    a.lh = b.lh ∧ o.sent = [] ∧ o.punches = [] ∧ o.trigger = none := by
+  have hs := trace_is_steps n evs _ hx
+  simp only [stepNode, Prod.mk.injEq] at hs
+  obtain ⟨ha, ho⟩ := hs
+  subst ha; subst ho
+  exact nonlh_ignores_updates_and_queries b.cfg b.lh f m hn ht
+
+/-- `am_lighthouse` is not reloadable: a reload never changes whether the node answers as a lighthouse. -/
+theorem reload_keeps_am_lighthouse (n : Node) (new : RawCfg) :
+    (reloadNode n new).cfg.amLighthouse = n.cfg.amLighthouse := by
+  have h2 : ∀ (c : Cfg) (hosts : List Addr), (reloadHosts c hosts).amLighthouse = c.amLighthouse := by
+    intro c hosts; unfold reloadHosts; split <;> rfl
+  have h3 : ∀ (c : Cfg) (s : LH) (a b : Bool), (reloadApply c s a b new).1.amLighthouse = c.amLighthouse := by
+    intro c s a b; cases a <;> cases b <;> simp [reloadApply, reloadStatics, h2]
+  unfold reloadNode
+  simp only
+  split
+  · rfl
+  · rename_i c hc
+    rw [h3]
+    split at hc
+    · split at hc
+      · cases hc
+      · simp only [Option.some.injEq] at hc; subst hc; rfl
+    · simp only [Option.some.injEq] at hc; subst hc; rfl
+
+/-- A reload whose remote allow lists are valid and whose `lighthouse.hosts` changed installs exactly the
+configured list — additions, removals, permutations and replacements alike — provided every configured host
+has a static entry (otherwise the reload of that key is refused and the list stays). -/
+theorem reload_installs_configured_lighthouses (n : Node) (new : RawCfg)
+    (hal : ∃ ral, parseRemoteAllow new.g new.ranges = .ok ral) (hch : new.hosts ≠ n.raw.hosts)
+    (hst : ∀ h ∈ new.hosts, memB (staticsAfter n new) h = true) :
+    (reloadNode n new).cfg.lighthouses = new.hosts := by
+  obtain ⟨ral, hral⟩ := hal
+  have hall : new.hosts.all (fun h => memB (staticsAfter n new) h) = true := List.all_eq_true.mpr hst
+  have key : ∀ (c : Cfg), c.staticList = n.cfg.staticList →
+      (reloadApply c n.lh (decide (new.statics ≠ n.raw.statics)) (decide (new.hosts ≠ n.raw.hosts)) new).1.lighthouses
+        = new.hosts := by
+    intro c hc
+    have hH : decide (new.hosts ≠ n.raw.hosts) = true := by simpa using hch
+    rw [hH]
+    unfold staticsAfter at hall
+    by_cases h2 : new.statics ≠ n.raw.statics
+    · have hS : decide (new.statics ≠ n.raw.statics) = true := by simpa using h2
+      rw [if_pos h2] at hall
+      simp [reloadApply, hS, reloadStatics, reloadHosts, hall]
+    · have hS : decide (new.statics ≠ n.raw.statics) = false := by simpa using h2
+      rw [if_neg h2] at hall
+      simp [reloadApply, hS, reloadHosts, hc, hall]
+  unfold reloadNode
+  simp only [hral]
+  split
+  · rename_i hc
+    split at hc <;> cases hc
+  · rename_i c hc
+    apply key
+    split at hc <;> (simp only [Option.some.injEq] at hc; subst hc; rfl)
+
+/-- A lighthouse removed from `lighthouse.hosts` by a reload loses its authority at once: its query replies
+and punch notifications have no effect under the reloaded configuration. -/
+theorem demoted_lighthouse_loses_authority (n : Node) (new : RawCfg)
+    (hal : ∃ ral, parseRemoteAllow new.g new.ranges = .ok ral) (hch : new.hosts ≠ n.raw.hosts)
+    (hst : ∀ h ∈ new.hosts, memB (staticsAfter n new) h = true)
+    (f : List Addr) (hf : f.any (fun a => memB new.hosts a) = false) (m : Msg)
+    (ht : m.typ = typHostQueryReply ∨ m.typ = typHostPunchNotification) :
+    let n' := reloadNode n new
+    (handleRequest n'.cfg n'.lh f m).1 = n'.lh ∧ (handleRequest n'.cfg n'.lh f m).2.sent = [] ∧
+    (handleRequest n'.cfg n'.lh f m).2.punches = [] ∧ (handleRequest n'.cfg n'.lh f m).2.trigger = none := by
+  intro n'
+  apply accepts_only_from_lighthouses
+  · simp only [fromLighthouse, n', reload_installs_configured_lighthouses n new hal hch hst]; exact hf
+  · exact ht
+
+-- non-vacuity: L1 and L2 configured; a reload removes L2; a punch notification from L2 then does nothing,
+-- one from L1 still schedules
+example :
+    let l1 : Addr := ⟨.v4, 0x0a800002⟩
+    let l2 : Addr := ⟨.v4, 0x0a800003⟩
+    let st : List (Addr × List AP) := [(l1, [⟨⟨.v4, 0x46010102⟩, 4242⟩]), (l2, [⟨⟨.v4, 0x46010103⟩, 4242⟩])]
+    let c : Cfg := { amLighthouse := false, myNets := [⟨⟨.v4, 0x0a800001⟩, 24⟩], lighthouses := [l1, l2],
+                     ral := { allowList := none, inside := none }, initV := 2, staticList := [l1, l2] }
+    let n : Node := { cfg := c, lh := {}, raw := { hosts := [l1, l2], statics := st } }
+    let n' := reloadNode n { hosts := [l1], statics := st }
+    let d : Details := { oldVpn := 0x0a800014, v4 := [⟨⟨.v4, 0x01010101⟩, 4242⟩] }
+    n'.cfg.lighthouses = [l1] ∧
+    (handleRequest n.cfg n.lh [l2] { typ := typHostPunchNotification, details := some d }).2.punches.length = 2 ∧
+    (handleRequest n'.cfg n'.lh [l2] { typ := typHostPunchNotification, details := some d }).2.punches = [] ∧
+    (handleRequest n'.cfg n'.lh [l1] { typ := typHostPunchNotification, details := some d }).2.punches.length = 2 := by
+  decide
+
 end Nebula.Props.C35
